@@ -92,6 +92,9 @@ SPECIAL_FUNCTIONS: dict[str, Callable] = {
     "Heaviside": np.heaviside,
     "hypot": np.hypot,
     "erf": special.erf,
+    # sympy's simplification can introduce real and imaginary parts, e.g., Abs(exp(x))
+    "re": lambda x: np.real(x),
+    "im": lambda x: np.imag(x),
 }
 
 
